@@ -6,7 +6,7 @@ _C03_WRAP = ["-Wl,--wrap=posix_memalign", "-Wl,--wrap=free"]
 rc_target("c03_sba", flavour="asan", cxxflags=_C03_WRAP)
 rc_target("c03_sba_mt", flavour="sched", wrap=True,
           cxxflags=_C03_WRAP + ["-Wl,--wrap=aws_mutex_lock", "-Wl,--wrap=aws_mutex_unlock"])
-plan("C03", [T("c03_sba", 1500, 22000), T("c03_sba_mt", 800, 12000)], min_nt=300,
+plan("C03", [T("c03_sba", 4000, 14000), T("c03_sba_mt", 2500, 8000)], min_nt=2500,
      rule="command histories against a block table + interval map + independently observed pages; threaded histories x schedules",
      technique="model-based property testing (rapidcheck): per-block patterns re-verified after every command, interval map, "
                "size-class accounting model, page observation by link-time interposition; threads under the controlled scheduler",
